@@ -51,7 +51,7 @@ type UnitSpec struct {
 	Quick     TierSpec `json:"quick"`
 	Thorough  TierSpec `json:"thorough"`
 	Reach     []string `json:"reach"` // labels that must be reached (vacuity guard)
-	Stubs     []string `json:"stubs_note"`
+	Stubs     map[string]string `json:"stubs"` // function full name -> harness function replacing it
 	Assume    []string `json:"assumptions"`
 	NonTermV  bool     `json:"nontermination_is_violation"`
 }
@@ -315,6 +315,7 @@ func (r *checkRun) runUnit(u *UnitSpec, ts TierSpec) {
 		return
 	}
 	prog.RepoRoot = repoRoot
+	prog.Stubs = u.Stubs
 	if r.verbose {
 		fmt.Fprintf(os.Stderr, "[%s/%s] loaded in %.1fs (ssa %.1fs)\n", r.id, u.Name, prog.LoadTime.Seconds(), prog.SSATime.Seconds())
 	}
